@@ -141,6 +141,11 @@ def honestPrefixLen : List String → Nat → Option Nat
     else if f.startsWith "z" && fs.isEmpty then some k
     else none
 
+/-- number of leading wire frames that are exactly `o0, o1, …` in order -/
+def honestRun : List String → Nat → Nat
+  | [], k => k
+  | f :: fs, k => if f == "o" ++ toString k then honestRun fs (k + 1) else k
+
 def kindTag (frames : List String) (nsent : Nat) : String :=
   let rec go : List String → Nat → String
     | [], k => if k ≥ nsent then "honest" else "trunc"
@@ -188,7 +193,7 @@ def run' (op impl : String) : Option Ans := do
   -- spec oracle on the implementation's result
   let verdict :=
     match impl.splitOn " " with
-    | [d, e, _, a, rr] =>
+    | [d, e, qq, a, rr] =>
       match bytesOfHex (String.ofList (d.toList.drop 2)), bytesOfHex (String.ofList (a.toList.drop 2)) with
       | some dl, some al =>
         let all := appBytes sent
@@ -201,6 +206,11 @@ def run' (op impl : String) : Option Ans := do
         if !al.isEmpty then "FAIL:delivered-after-error"
         -- (a) everything delivered is a prefix of what the peer sent
         else if !isPrefixB dl all then "FAIL:not-prefix"
+        -- (a') nothing of a record that is not, byte for byte (header included: type, version, length) and in order,
+        --      what the peer sealed may be delivered, nor accepted by the receiving half:
+        --      k = number of leading wire frames that are o0, o1, … in order
+        else if dl.length > (appBytes (sent.take (honestRun wireS 0))).length then "FAIL:tampered-record-delivered"
+        else if ((String.ofList (qq.toList.drop 2)).toNat?.getD 0) > honestRun wireS 0 then "FAIL:tampered-record-accepted"
         -- (c) the error is sticky: every later Read returns it again
         else if rr != "r=-" && laterErrs.any (fun x => x != firstErr) then "FAIL:error-not-sticky"
         else if e == "e=eof" && dl != upToClose then
